@@ -13,7 +13,7 @@ import (
 
 var patchKeys = []string{"a", "b", "c", "k1", "x/y", "t~0", "arr", "n.m", "ü", "p~1q", "~01", "~10", "a~0~1b/", "/", "~"}
 
-func mutateJSON(g *kernel.Rng, v interface{}, depth int) interface{} {
+func MutateJSON(g *kernel.Rng, v interface{}, depth int) interface{} {
 	switch x := v.(type) {
 	case map[string]interface{}:
 		out := map[string]interface{}{}
@@ -23,7 +23,7 @@ func mutateJSON(g *kernel.Rng, v interface{}, depth int) interface{} {
 			case 1: // replace (possibly with another type)
 				out[k] = GenValue(g, depth+1, 3)
 			default:
-				out[k] = mutateJSON(g, x[k], depth+1)
+				out[k] = MutateJSON(g, x[k], depth+1)
 			}
 		}
 		for i := g.Intn(3); i > 0; i-- {
@@ -38,9 +38,9 @@ func mutateJSON(g *kernel.Rng, v interface{}, depth int) interface{} {
 			case 1:
 				out = append(out, GenValue(g, depth+1, 3))
 			case 2:
-				out = append(out, GenValue(g, depth+1, 3), mutateJSON(g, e, depth+1))
+				out = append(out, GenValue(g, depth+1, 3), MutateJSON(g, e, depth+1))
 			default:
-				out = append(out, mutateJSON(g, e, depth+1))
+				out = append(out, MutateJSON(g, e, depth+1))
 			}
 		}
 		for i := g.Intn(3); i > 0; i-- {
@@ -77,7 +77,7 @@ func (r *run) patch(p *replica, e Ev) {
 	if g.Chance(1, 6) {
 		target = GenObject(g, 0, 3)
 	} else {
-		target = mutateJSON(g, curCopy, 0)
+		target = MutateJSON(g, curCopy, 0)
 	}
 	if _, ok := target.(map[string]interface{}); !ok {
 		target = map[string]interface{}{}
